@@ -490,10 +490,15 @@ def body_rep(case, ctx):
         _tangent_sign(ctx, "rep[w]@X", kind, TX, want_p, want_a)
     # the composite of all words, applied pairwise: entry [i][j] = M_{w_j} x_i
     words = [("".join(w) if not case["as_list"] else list(w)) for w in case["words"]]
+    # (the words as a list or, in every other case, as a one-shot iterator - what
+    # free_words_less_than() and friends hand out)
+    it = (lambda ws: iter(ws)) if len(words) % 2 else (lambda ws: ws)
+    if len(words) % 2:
+        ctx.label("words-as-iterator")
     if hyp:
-        E = rep.isometries(words)
+        E = rep.isometries(it(words))
     else:
-        E = rep.transformations(words) if case["mixed_cls"] else rep.elements(words)
+        E = rep.transformations(it(words)) if case["mixed_cls"] else rep.elements(it(words))
     ctx.check(type(E) is tcls, "type(rep.elements(words))", got=type(E).__name__)
     ctx.check(tuple(E.shape) == (len(words),), "shape of rep.elements(words)", got=E.shape,
               want=(len(words),))
